@@ -42,7 +42,7 @@ func main() {
 	env, rep := vh.Parse("C13")
 	rng := vh.NewRng(env.Seed)
 	rep.Rule = "one case = one request line: a typed-list op history (L), a wire write/read (W/R), a Filtering call (F), " +
-		"a Sorting/SortingAnyList call (M), a LinkedList history (K) or a StatGeneralPack table round trip/sort (P); " +
+		"a multi-object history over a pool of 4 lists and 3 caller-held slices with every live object compared after every op (X), a Sorting/SortingAnyList call (M), a LinkedList history (K) or a StatGeneralPack table round trip/sort (P); " +
 		"non-trivial: the history changes state at least once / the sorted list has ≥ 2 elements / the list written or filtered is non-empty; " +
 		"distinct = distinct request lines"
 
@@ -266,6 +266,11 @@ func runCase(c *kase) {
 		if c.pout.OK() {
 			c.dl = append(c.dl, fmt.Sprintf("O %s %s %s %s %s %s %s", f[1], f[2], f[3], f[4], f[5], f[6], intsStr(c.perm)))
 		}
+	case 'X':
+		t, ops := f[1][0], splitOps(f[2])
+		c.impl = execX(t, ops)
+		c.spec = specX(t, ops)
+		c.dl = []string{strings.ReplaceAll(c.line, ":def", ":cap:0")}
 	case 'K':
 		ops := splitOps(f[1])
 		c.impl = execK(ops)
@@ -439,6 +444,26 @@ func judge(c *kase, rep *vh.Report) {
 		if c.dout[0] != c.impl[0] {
 			rep.Fail("correspondence", typeNames[t]+".Filtering:model-disagrees",
 				fmt.Sprintf("implementation %s, model %s", vh.Clip(c.impl[0], 80), vh.Clip(c.dout[0], 80)), replayOf(c, nil))
+		}
+	case 'X':
+		t, ops := f[1][0], splitOps(f[2])
+		rep.Case(c.line, len(ops) > 0)
+		rep.Count("X.type." + typeNames[t])
+		for _, op := range ops {
+			rep.Count("X.op." + xOpNames[strings.Split(op, ":")[0]])
+		}
+		model := splitOps(c.dout[0])
+		if d := firstDiff(c.impl, c.spec); d >= 0 {
+			cls := xClass(at(ops, d), at(c.impl, d), at(c.spec, d))
+			rep.Fail("property", typeNames[t]+"."+xOpNames[strings.Split(at(ops, d), ":")[0]]+":"+cls,
+				fmt.Sprintf("%s pool: after op #%d %s the live objects are %s, independent sequences are %s", typeNames[t], d, vh.Clip(at(ops, d), 40), vh.Clip(at(c.impl, d), 120), vh.Clip(at(c.spec, d), 120)),
+				replayOf(c, map[string]interface{}{"op_index": d}))
+			return
+		}
+		if d := firstDiff(c.impl, model); d >= 0 {
+			rep.Fail("correspondence", typeNames[t]+"."+xOpNames[strings.Split(at(ops, d), ":")[0]]+":model-disagrees",
+				fmt.Sprintf("op #%d %s: implementation %s, model %s", d, vh.Clip(at(ops, d), 40), vh.Clip(at(c.impl, d), 120), vh.Clip(at(model, d), 120)),
+				replayOf(c, map[string]interface{}{"op_index": d}))
 		}
 	case 'M':
 		judgeSort(c, f, rep)
